@@ -350,7 +350,7 @@ def run(ctx):
     ctx.log("corpus: %s" % json.dumps(cstats))
 
     # ---- (1c) the v1 engine
-    ne = 40 if ctx.quick else 600
+    ne = 60 if ctx.quick else 600
     rc, out = c.run_bin(binp, ["engine", ctx.seed, ne], timeout=1800)
     ers = [json.loads(l) for l in out.splitlines() if l.startswith("{")]
     estats = {}
